@@ -446,6 +446,49 @@ def text_features(p):
     return f
 
 
+def widest_set(p):
+    """number of characters listed by the widest set of a pattern, read off Python's own parse tree"""
+    parser = getattr(re, "_parser", None)
+    if parser is None:
+        import sre_parse as parser
+    try:
+        tree = parser.parse(p)
+    except Exception:      # noqa
+        return 0
+    best = [0]
+
+    def walk(t):
+        for op, av in t:
+            o = str(op)
+            if o == "IN":
+                n = 0
+                for op2, av2 in av:
+                    o2 = str(op2)
+                    if o2 == "LITERAL":
+                        n += 1
+                    elif o2 == "RANGE":
+                        n += av2[1] - av2[0] + 1
+                    elif o2 == "CATEGORY":
+                        n += {"CATEGORY_DIGIT": 10, "CATEGORY_SPACE": 6, "CATEGORY_WORD": 63}.get(str(av2), 90)
+                best[0] = max(best[0], n)
+            elif o in ("MAX_REPEAT", "MIN_REPEAT"):
+                walk(av[2])
+            elif o == "SUBPATTERN":
+                walk(av[3])
+            elif o == "BRANCH":
+                for b in av[1]:
+                    walk(b)
+    walk(tree)
+    return best[0]
+
+
+# sets that list 150 characters and more: the library rewrites a set into a union with one alternative per character and
+# its recursive reader runs out of stack on them (known finding C07-wide-set-exhausts-the-reader)
+WIDE_ASTS = [("set", False, (("range", "!", "~"), ("range", " ", "~"))),
+             ("cat", ("lit", "0"), ("q", ("set", False, (("short", "\\w"), ("caret",), ("range", "!", "~"))), ("rep2", 2, 10))),
+             ("cat", ("lit", "x"), ("q", ("set", False, (("range", " ", "~"), ("range", "!", "~"))), ("*",)))]
+
+
 def post_init(st, self, args, kwargs, result, exc):
     p = args[0] if args else kwargs.get("python_regex")
     if not isinstance(p, str):
@@ -455,6 +498,8 @@ def post_init(st, self, args, kwargs, result, exc):
     case = core.LOG.case if isinstance(core.LOG.case, dict) else {}
     feats = set(case.get("features", ())) if case.get("pattern") == p else text_features(p)
     tags = sorted("pat:" + f for f in feats if f in MECH)
+    if widest_set(p) >= 150:
+        tags.append("set_of_150_characters_or_more")
     try:
         cp = re.compile(p)
     except re.error:
@@ -524,6 +569,9 @@ def small_asts():
 
 def plan(tier, rng, sl, nslices, stats):
     cfg = TIERS[tier]
+    if sl == 0:
+        for t in WIDE_ASTS:
+            yield {"pattern": render(t), "features": sorted(features(t)), "ast": t, "sseed": 1 + len(render(t))}
     for i in range(cfg["random"]):
         t = gen(rng, rng.choice([0, 1, 1, 2, 2]))
         p = render(t)
